@@ -219,7 +219,7 @@ func (s *lifeState) mutate() {
 		g.do(fmt.Sprintf("setprop c:%d:%d %s %s", idOf(s.t), r.n(g.ncols(s.t)+1), key, r.pick(vals)))
 	case q == 10 && s.focus == "html" && len(s.ws["html"]) > 0:
 		w := s.ws["html"][r.n(len(s.ws["html"]))]
-		args := " id=" + hx(r.text(alphaHTML, 2)) + " cls=" + hx(r.text(alphaHTML, 2)) + " cap=" + hx(r.text(alphaHTML, 2)) + r.pick([]string{"", "", " tn=" + hx("layout"), " tn=" + hx("x{{y}}")})
+		args := " id=" + hx(r.text(alphaHTML, 2)) + " cls=" + hx(r.text(alphaHTML, 2)) + " cap=" + hx(r.text(alphaHTML, 2)) + r.pick([]string{"", "", " tn=" + hx("layout"), " tn=" + hx("x{{y}}"), " tn=" + hx(r.pick([]string{"tr", "td", "th", "table", "row", "cell", "T", "tbody", "thead", "Headers", "Rows"}))})
 		if r.chance(2, 3) {
 			var l []string
 			for n := 0; n <= g.x.tables[idOf(s.t)].NRows()+2; n++ {
